@@ -639,6 +639,10 @@ class Exec:
             r = lib.obj_attr(self, v, attr)
             if r is not lib.NOATTR:
                 return r
+            if "__native__" in v.fields:
+                # a symbolic object built by pyvc/models.py (not by running the real constructor): an attribute the model
+                # does not know means the model is out of date with __init__, not that the program raises AttributeError
+                raise Unsupported(f"attribute {attr!r} is not part of the symbolic {v.cls} model (model out of date with the constructor)")
             raise PyRaise(ExcV("AttributeError", (attr,)))
         if isinstance(v, ClassV):
             # enum members / class attributes
